@@ -6,6 +6,7 @@ import Csproto.Bridge.DecoderFuncs
 import Csproto.Bridge.SkipFuncs
 import Csproto.Props.C03Source
 import Csproto.Bridge.SeekFuncs
+import Csproto.Bridge.PackedFuncs
 /- axiom audit for C03 -/
 open Csproto
 #print axioms C03.step_safe
@@ -74,3 +75,7 @@ open Csproto
 -- Seek of the current decoder.go (wrapping 64-bit arithmetic, bounds test) refines Dec.step (.seek o w)
 #print axioms Csproto.Bridge.SeekFuncs.Seek_refines
 #print axioms Csproto.Bridge.SeekFuncs.wrap_add
+
+-- a packed reader of the current decoder.go (loop, append, shadowing locals) refines Dec.step .packedUint64; the loop terminates
+#print axioms Csproto.Bridge.PackedFuncs.loop_eq
+#print axioms Csproto.Bridge.PackedFuncs.DecodePackedUint64_refines
